@@ -133,7 +133,11 @@ func (j *c13Job) parked() bool {
 func c13Call(f func()) bool {
 	j := c13Start(f)
 	wait := 50 * time.Microsecond
+	began := time.Now()
 	for {
+		if time.Since(began) > 5*time.Minute {
+			panic("call did not return within 5 minutes and is not parked in a mutex")
+		}
 		select {
 		case <-j.done:
 			if j.pan != nil {
@@ -496,7 +500,6 @@ func c13Step[T number](r *c13Runner, m map[string]*c13Prov[T], bits int, t []str
 					if !j1.finished() && !j2.finished() && j1.parked() && j2.parked() {
 						a.dead, b.dead = true, true
 						r.stats.Inc("deadlock.abba")
-						r.stats.Add("abba.iterations_until_deadlock", int64(i+1))
 						return "deadlock", true
 					}
 				}
@@ -764,7 +767,7 @@ func (g *c13Gen) randomCase(bits int, rk, ok string, big bool) {
 				lo = 0
 			}
 			g.line("addrange %s %d %d %d", name[ro], lo, cnt, step)
-			g.stats.Inc("gen.dense_run")
+			g.stats.Inc("dense_run")
 			// thin it out again so that removal paths / bitmap->array conversions are in the history
 			for k := r.Intn(4); k > 0; k-- {
 				g.line("remove %s %d", name[ro], lo+uint64(r.Intn(cnt)*step))
@@ -829,7 +832,7 @@ func (g *c13Gen) randomCase(bits int, rk, ok string, big bool) {
 			}
 		}
 	}
-	g.stats.Inc("gen.random_cases")
+	g.stats.Inc("random_cases")
 }
 
 // The native in-place Xor of the roaring library is not operand-pure (findings C13:bitmap64.Xor:native-shares-containers,
@@ -852,7 +855,7 @@ func (g *c13Gen) xorRebind(bits int, op, a, b string, name, kind map[string]stri
 		g.line("clone %s %s", nn, name[role])
 		name[role] = nn
 	}
-	g.stats.Inc("gen.xor_native_rebind")
+	g.stats.Inc("xor_native_rebind")
 }
 
 // exhaustive small scope: every receiver/operand subset pair of a boundary universe, every op, fallback operand
@@ -879,7 +882,7 @@ func (g *c13Gen) exhaustive(bits int, rk string, universe []uint64) {
 					g.line("add o %s", c13Join(sub(om)))
 				}
 				g.line("%s r o", op)
-				g.stats.Inc("gen.exhaustive_cases")
+				g.stats.Inc("exhaustive_cases")
 			}
 		}
 	}
@@ -959,9 +962,9 @@ func (c13Suite) genMain(g *c13Gen, tier string) {
 		g.exhaustive(64, "ts64", u64[:5])
 	}
 	// 3. random structured cases over all pairings
-	small, big := 1200, 14
+	small, big := 1200, 10
 	if thorough {
-		small, big = 40000, 250
+		small, big = 25000, 150
 	}
 	for i := 0; i < small+big; i++ {
 		bits := 32
@@ -1065,7 +1068,7 @@ func (c13Suite) genRun(g *c13Gen, tier string) {
 		}
 		g.line("each r 3")
 		g.line("contains r %d", base+65535)
-		g.stats.Inc("gen.run_cases")
+		g.stats.Inc("run_cases")
 	}
 }
 
@@ -1105,7 +1108,7 @@ func (c13Suite) genAlias(g *c13Gen, tier string) {
 				g.line("slice o")
 				g.line("slice r")
 			}
-			g.stats.Inc("gen.alias64_cases")
+			g.stats.Inc("alias64_cases")
 		} else {
 			// 32 bit: receiver chunk is an array container, operand chunk a bitmap container
 			rk := Pick(r, []string{"b32", "ts32"})
@@ -1118,7 +1121,7 @@ func (c13Suite) genAlias(g *c13Gen, tier string) {
 			g.line("xor r o")
 			g.line("add r %d", base+uint64(60000+r.Intn(100)))
 			g.line("slice o")
-			g.stats.Inc("gen.alias32_cases")
+			g.stats.Inc("alias32_cases")
 		}
 	}
 }
@@ -1192,8 +1195,8 @@ func (c13Suite) genConc(g *c13Gen, tier string) {
 		g.line("conc x %s", strings.Join(toks, " "))
 		g.line("slice s1")
 		g.line("slice s2")
-		g.stats.Inc("gen.conc_cases")
-		g.stats.Inc("gen.conc_mix." + mix)
+		g.stats.Inc("conc_cases")
+		g.stats.Inc("conc_mix." + mix)
 	}
 }
 
